@@ -398,3 +398,7 @@ mod tests {
         Ok(())
     }
 }
+
+#[cfg(kani)]
+#[path = "/verif/kani/selector.rs"]
+mod verif_kani;
